@@ -72,6 +72,7 @@ Local Open Scope string_scope.
 Eval vm_compute in (flat_map (fun I => map (fun v => (i_name I, fst v, snd v)) (violations I)) facts).
 Eval vm_compute in (flat_map (fun I => map (fun v => (String.append "atomicity:" (i_name I), fst v, snd v)) (atomicity_violations I)) facts).
 Eval vm_compute in (flat_map (fun I => map (fun v => (String.append "shape:" (i_name I), fst v, snd v)) (reduction_shape_violations I)) facts).
+Eval vm_compute in (flat_map (fun I => if String.eqb (i_name I) "ReadOnly" then [] else map (fun v => (String.append "panic:" (i_name I), fst v, snd v)) (panic_violations I)) facts).
 COQ
 ( cd "$S" && timeout 300 coqc $Q Diag.v ) > "$D/diag.log" 2>&1 || true
 ok=1
@@ -106,9 +107,13 @@ for inst, name, k in found[:6]:
     desc = ps[0] if len(ps) == 1 else (ps[k] if k < len(ps) else '?')
     shape = inst.startswith('shape:')
     if shape: inst = inst[len('shape:'):]
-    ps = text.get((inst, name)) or []
+    pan = inst.startswith('panic:')
+    if pan: inst = inst[len('panic:'):]
+    ps = text.get((inst, ('panic:' + name) if pan else name)) or []
     desc = ps[0] if len(ps) == 1 else (ps[k] if k < len(ps) else '?')
-    if shape:
+    if pan:
+        print(f"OBLIGATION-FAIL {inst}.{name}: panic exit {k} leaves a lock held or touches guarded state without it (no deferred unlock): {desc[:500]}")
+    elif shape:
         print(f"OBLIGATION-FAIL {inst}.{name} path {k} is outside the shape the reduction theorem covers (inner lock outside an exclusive outer section, outer lock not released last, hand-off / goroutine start not of the covered kind): {desc[:500]}")
     elif atom:
         print(f"OBLIGATION-FAIL {inst}.{name} path {k} is more than one critical section (each section is atomic, the call is not): {desc[:600]}")
